@@ -362,6 +362,15 @@ type Reader struct {
 	mu    sync.RWMutex
 	cache Cache
 
+	// cacheGen counts calls to SetCache. borrowed is the value
+	// it had when the current Block was obtained from the cache,
+	// or zero if the Block did not come from a cache. A Block
+	// obtained from a cache may still be held by it (the FIFO
+	// cache keeps used blocks on Get), so it must not be reused
+	// for another member once that cache has been detached.
+	cacheGen int
+	borrowed int
+
 	err error
 }
 
@@ -447,6 +456,7 @@ func NewReader(r io.Reader, rd int) (*Reader, error) {
 func (bg *Reader) SetCache(c Cache) {
 	bg.mu.Lock()
 	bg.cache = c
+	bg.cacheGen++
 	bg.mu.Unlock()
 }
 
@@ -709,6 +719,12 @@ func (bg *Reader) redirect(next int64) {
 func (bg *Reader) cacheSwap(base int64) bool {
 	bg.mu.RLock()
 	defer bg.mu.RUnlock()
+	if bg.borrowed != 0 && bg.borrowed != bg.cacheGen {
+		// The cache the current Block came from has been detached
+		// and may still hold it: leave it alone.
+		bg.current = nil
+		bg.borrowed = 0
+	}
 	if bg.cache == nil {
 		return false
 	}
@@ -723,6 +739,7 @@ func (bg *Reader) cacheSwap(base int64) bool {
 		// Consider retaining these in a sync.Pool.
 		bg.cachePut(bg.current)
 		bg.current = blk
+		bg.borrowed = bg.cacheGen
 		return true
 	}
 	var retained bool
@@ -730,6 +747,7 @@ func (bg *Reader) cacheSwap(base int64) bool {
 	if retained {
 		bg.current = nil
 	}
+	bg.borrowed = 0
 	return false
 }
 
